@@ -11,7 +11,7 @@
    `NodeBase.xpath` resets the filters, which is why no filter parameter occurs here. *)
 From Delb.Base Require Import PyStr.
 From Delb.Tree Require Import ATree ITree.
-From Delb.XPath Require Import Ast Nav FnLang.
+From Delb.XPath Require Import Ast Nav FnLang Num.
 From Delb.Gen Require Import GenXEval.
 
 Inductive exn := XPathEvaluationError | AttributeError | AssertionError | TypeError | NotImplementedError | OtherError
@@ -102,34 +102,48 @@ Definition py_int (v : pyval) : option N :=
   match v with PInt n => Some n | PBool b => Some (if b then 1%N else 0%N) | _ => None end.
 Definition truthy (v : pyval) : bool :=
   match v with PStr s => negb (null s) | PInt n => negb (N.eqb n 0) | PBool b => b | PNone => false end.
-Definition py_eq (a b : pyval) : bool :=
-  match a, b with
-  | PStr x, PStr y => str_eqb x y
-  | PNone, PNone => true
-  | _, _ => match py_int a, py_int b with Some x, Some y => N.eqb x y | _, _ => false end
+(* ast._to_number: a str that spells a number (whitespace, optional minus, digits with an optional fraction, or a
+   fraction alone; the pattern is pinned by translate/gen_xeval.py) -> float(str), any other str -> NaN; bool / int -> float.
+   \s and \d are the Unicode classes (tables regenerated from the interpreter: PyStr.is_ws, GenXEval.unicode_digits) *)
+Fixpoint assoc_N (l : list (N * N)) (c : N) : option N :=
+  match l with [] => None | (k, v) :: r => if N.eqb k c then Some v else assoc_N r c end.
+Definition py_digit (c : char) : option N := assoc_N unicode_digits c.
+Definition py_number (s : str) : xnum := parse_number is_ws py_digit s.
+Definition to_number (v : pyval) : xnum :=
+  match v with
+  | PStr s => py_number s
+  | PInt n => xnum_of_N n
+  | PBool b => xnum_of_bool b
+  | PNone => NaN                                   (* not reached: None is handled before *)
   end.
-Fixpoint str_ltb (a b : str) : bool :=
+Definition is_pybool (v : pyval) : bool := match v with PBool _ => true | _ => false end.
+Definition is_pyint (v : pyval) : bool := match v with PInt _ => true | _ => false end.
+Definition cmp_of (o : binop) : option cmpop :=
+  match o with OpEq => Some CEq | OpNe => Some CNe | OpLt => Some CLt | OpLe => Some CLe | OpGt => Some CGt | OpGe => Some CGe
+             | _ => None end.
+(* BooleanOperator.evaluate for the six comparison operators (fix 6d4104b) *)
+Definition py_compare (c : cmpop) (a b : pyval) : bool :=
   match a, b with
-  | _, [] => false
-  | [], _ :: _ => true
-  | x :: a', y :: b' => N.ltb x y || (N.eqb x y && str_ltb a' b')
-  end.
-Definition py_lt (a b : pyval) : res bool :=
-  match a, b with
-  | PStr x, PStr y => Ok (str_ltb x y)
-  | _, _ => match py_int a, py_int b with Some x, Some y => Ok (N.ltb x y) | _, _ => Crash TypeError end
+  | PNone, _ | _, PNone => false                                 (* a missing attribute: an empty node set *)
+  | _, _ =>
+      match c with
+      | CEq | CNe =>
+          if is_pybool a || is_pybool b then
+            (match c with CEq => Bool.eqb (truthy a) (truthy b) | _ => negb (Bool.eqb (truthy a) (truthy b)) end)
+          else if is_pyint a || is_pyint b then num_compare c (to_number a) (to_number b)
+          else match a, b with
+               | PStr x, PStr y => (match c with CEq => str_eqb x y | _ => negb (str_eqb x y) end)
+               | _, _ => false
+               end
+      | _ => num_compare c (to_number a) (to_number b)
+      end
   end.
 Definition py_binop (o : binop) (a b : pyval) : res pyval :=
   match o with
-  | OpEq => Ok (PBool (py_eq a b))
-  | OpNe => Ok (PBool (negb (py_eq a b)))
-  | OpLt => bind (py_lt a b) (fun r => Ok (PBool r))
-  | OpGt => bind (py_lt b a) (fun r => Ok (PBool r))
-  | OpLe => bind (py_lt b a) (fun r => Ok (PBool (negb r)))
-  | OpGe => bind (py_lt a b) (fun r => Ok (PBool (negb r)))
   (* and / or: both operands are evaluated (no short circuit), converted with bool(), then combined *)
   | OpAnd => Ok (PBool (truthy a && truthy b))
   | OpOr => Ok (PBool (truthy a || truthy b))
+  | _ => match cmp_of o with Some c => Ok (PBool (py_compare c a b)) | None => Crash OtherError end
   end.
 
 (* node.attributes.get((ns, local)): TagAttributes._etree_key sends a namespace equal to the element's in-scope
@@ -191,8 +205,10 @@ Fixpoint d_expr (m : nsmap) (e : expr) (c : nd) (pos size : N) {struct e} : res 
   | AnyValue (VNum n) => Ok (PInt n)
   | AttributeValue p l =>
       if unknown_prefix m p then Rejected XPathEvaluationError
-      else if is_tagnode c then Ok (PStr (opt_default [] (delb_attr (ipayload (snd c)) (attr_ns m p) l)))
-      else Ok (PStr [])                              (* not a tag node: an empty string (fix c8b3442) *)
+      (* None for a node that is not a tag node and for a missing attribute (fix 6d4104b) *)
+      else if is_tagnode c
+           then Ok (match delb_attr (ipayload (snd c)) (attr_ns m p) l with Some v => PStr v | None => PNone end)
+           else Ok PNone
   | HasAttribute p l =>
       if unknown_prefix m p then Rejected XPathEvaluationError
       else if is_tagnode c
@@ -206,7 +222,8 @@ Fixpoint d_expr (m : nsmap) (e : expr) (c : nd) (pos size : N) {struct e} : res 
                | [] => Ok []
                | x :: r => bind (d_expr m x c pos size) (fun v => bind (go r) (fun vs => Ok (v :: vs)))
                end) args)
-           (fun vs => call_fn name vs c pos size)
+           (* a function receives "" for a None argument *)
+           (fun vs => call_fn name (map (fun v => match v with PNone => PStr [] | _ => v end) vs) c pos size)
   end.
 
 (* ---------------------------------------------------------------- LocationStep._evaluate *)
